@@ -872,6 +872,7 @@ def main(ck: Check):
         t_prove = ck.elapsed()
         res = ck.driver(reqs, timeout=max(120.0, ck.time_left() + 240))
         tgt.correspond(ck.driver(tgt.reqs, timeout=max(120.0, ck.time_left() + 240)))      # part "Targets"
+        tgt.judge_diverged(ck.driver)
     ck.notes.append(f"phases: real code {t_py:.1f}s, wait for lean lock {t_lock - t_py:.1f}s, "
                     f"prove+audit {t_prove - t_lock:.1f}s, driver {ck.elapsed() - t_prove:.1f}s")
 
